@@ -28,5 +28,6 @@ TFlush  ==
     /\ SeqToSet(Cur.set4) = set4'
     /\ SeqToSet(Cur.set6) = set6'
 
+\* a "panic" event (the real manager panicked; logged by the driver) has no action: such a trace is rejected
 TNext == TReset \/ TUpdate \/ TRemove \/ TFlush
 =============================================================================
